@@ -37,6 +37,10 @@ func verifResultSet(name string, nv, nw, ni int) rego.ResultSet {
 	for i := 0; i < ni; i++ {
 		is = append(is, verifResult("i", i))
 	}
+	return verifResultSetOf(name, vs, ws, is)
+}
+
+func verifResultSetOf(name string, vs, ws, is []any) rego.ResultSet {
 	m := types.ObjectMap{"profile": name, "violation": vs, "warning": ws, "info": is}
 	return rego.ResultSet{rego.Result{Expressions: []*rego.ExpressionValue{{Value: m}}}}
 }
